@@ -1078,7 +1078,7 @@ func runC09(args []string) error {
 	sm.RefMismatches = []refMismatch{} // the driver iterates over it
 	// thorough: the whole family again for several derived parameter sets (goroutine counts, buffer
 	// sizes, tick values, recursion depth, which half of the construct grid)
-	reps := 2
+	reps := 3
 	if thorough {
 		reps = 16
 	}
